@@ -484,11 +484,56 @@ func c06GenGlobx(r *Rand) string {
 			args = append(args, Pick(r, t.links)+Pick(r, []string{"", "", "/"}))
 		case k == 8 && len(t.dirs) > 1:
 			args = append(args, "./"+Pick(r, t.dirs[1:]))
+		case k == 9 && r.Chance(1, 2):
+			args = append(args, c06GenDetour(r, t))
 		default:
 			args = append(args, c06GenGlobPattern(r, t))
 		}
 	}
 	return fmt.Sprintf("globx %d %s %s", b01(r.Chance(1, 2)), HexListS(args), t.String())
+}
+
+// a path that reaches an entry of the tree (or fails on the way) by a detour: `d/../d/x` (down, up, down again), through `.`,
+// through a link to a directory, through a file or a link to a file (ENOTDIR), through a link that loops (ELOOP), with
+// doubled separators; the same entry under two spellings is two mentions
+func c06GenDetour(r *Rand, t *c06Tree) string {
+	ents := t.entries()
+	if len(ents) == 0 {
+		return Pick(r, []string{"missing/../missing", "./.", "loop/x", "a.log/../a.log"})
+	}
+	p := Pick(r, ents)
+	comps := strings.Split(p, "/")
+	var out []string
+	for i, c := range comps {
+		out = append(out, c)
+		if i == len(comps)-1 {
+			break
+		}
+		switch r.Intn(6) {
+		case 0: // down, up, down again (the part so far is a directory of the tree: `..` stays inside)
+			out = append(out, "..", c)
+		case 1:
+			out = append(out, ".")
+		case 2:
+			out = append(out, "")
+		}
+	}
+	s := strings.Join(out, "/")
+	switch r.Intn(10) {
+	case 0: // through the entry itself, whatever it is (file: ENOTDIR; dir: fine; link: follows it)
+		s += "/" + Pick(r, []string{"x", ".", "a.log", filepath.Base(Pick(r, ents))})
+	case 1:
+		if len(t.links) > 0 { // through a link (to a file, a directory, nowhere, itself)
+			s = Pick(r, t.links) + "/" + filepath.Base(p)
+		}
+	case 2:
+		if strings.Contains(p, "/") {
+			s += "/../" + filepath.Base(p)
+		}
+	case 3:
+		s = "./" + s
+	}
+	return s
 }
 
 func c06GenGlobCases(r *Rand, tier string) []string {
